@@ -79,7 +79,8 @@ def _make_mesh(name):
         coords = onp.zeros((nn, 2))
         coords[new_of_old] = onp.asarray(mesh.coords)
         conns = new_of_old[onp.asarray(mesh.conns)]
-        simplex = onp.sort(new_of_old[onp.asarray(mesh.simplexNodesOrdinals)])
+        # NOT sorted: the vertex list of a mesh carries no ordering promise (the Exodus reader builds it from a set)
+        simplex = new_of_old[onp.asarray(mesh.simplexNodesOrdinals)]
         import jax.numpy as jnp
         mesh = Mesh.Mesh(jnp.array(coords), jnp.array(conns), jnp.array(simplex), mesh.parentElement,
                          mesh.parentElement1d, mesh.blocks, None, None)
